@@ -22,6 +22,8 @@
 package main
 
 import (
+	"crypto/sha256"
+	"encoding/hex"
 	"encoding/json"
 	"fmt"
 	"os"
@@ -178,6 +180,9 @@ func (e *engine) childSpec(j job) (vlib.ChildSpec, caseSpec) {
 		roots := filepath.Join(dir, "sb") + ":" + filepath.Join(dir, "tmp")
 		if sp.CrossTmp != "" {
 			roots += ":" + sp.CrossTmp
+		}
+		if sp.Layout == "linkdir" {
+			roots += ":" + filepath.Join(dir, "real-all")
 		}
 		mode := "record"
 		if j.inj != nil && j.inj.Second {
@@ -396,7 +401,7 @@ func (e *engine) runJobs(jobs []job) {
 				fspec, fsp, fw := e.followSpec(sp, r, fu)
 				r2 := vlib.RunChild(e.cfg, fspec)
 				mu.Lock()
-				e.judgeFollow(j, fsp, fw, r, r2)
+				e.judgeFollow(j, fsp, fw, fu, r, r2)
 				mu.Unlock()
 				if !keep {
 					_ = os.RemoveAll(r2.Dir)
@@ -411,6 +416,11 @@ func (e *engine) runJobs(jobs []job) {
 		}(jobs[i])
 	}
 	wg.Wait()
+}
+
+func dataState(payload []byte) string {
+	h := sha256.Sum256(payload)
+	return "data:" + hex.EncodeToString(h[:8])
 }
 
 // followUp is what a judged kill run hands to the second phase.
@@ -453,12 +463,16 @@ func (e *engine) followSpec(sp caseSpec, r *vlib.ChildResult, fu *followUp) (vli
 
 // judgeFollow: after the follow-up operation the destination is exactly the follow-up's
 // content (or, if it failed, still what the kill left), and the leftovers predicate holds.
-func (e *engine) judgeFollow(j job, fsp caseSpec, fw *world, r, r2 *vlib.ChildResult) {
+func (e *engine) judgeFollow(j job, fsp caseSpec, fw *world, fu *followUp, r, r2 *vlib.ChildResult) {
 	rep := e.rep
 	rep.Eval(1)
 	rep.Count("followup_runs", 1)
+	before, phase, pidx := "a process completed the operation and ended", "after-end", -1
+	if j.inj != nil {
+		before, phase, pidx = "a process was killed immediately before "+j.inj.Point.What, "after-crash", j.inj.Point.Index
+	}
 	if r2.TimedOut || !r2.Done || r2.Out == nil {
-		rep.Inconclusive("%s: follow-up operation after the kill before %s did not complete (exit=%d signal=%q): %s", fsp.label(), j.inj.Point.What, r2.Exit, r2.Signal, r2.StderrTail(400))
+		rep.Inconclusive("%s: follow-up operation (%s) did not complete (exit=%d signal=%q): %s", fsp.label(), before, r2.Exit, r2.Signal, r2.StderrTail(400))
 		return
 	}
 	var res opResult
@@ -469,20 +483,34 @@ func (e *engine) judgeFollow(j job, fsp caseSpec, fw *world, r, r2 *vlib.ChildRe
 		return
 	}
 	fw.judgeReturn(st, res, false)
+	if res.Reopened != "" {
+		// fstree: right after the backend was re-opened on the left-over tree, Get must still serve what was there
+		want := "notfound"
+		switch fu.st.Dest {
+		case "old":
+			want = dataState(fu.w.payloadB)
+		case "new":
+			want = dataState(fu.w.payloadA)
+		}
+		rep.Count("reopen_get_checks", 1)
+		if res.Reopened != want {
+			st.Findings = append(st.Findings, finding{"dest-missing", "dest", fmt.Sprintf("the destination held the complete %s record when the earlier process ended, but after re-opening the backend (NewFSTree on the same directory) Get served %q instead of %q", fu.st.Dest, res.Reopened, want)})
+		}
+	}
 	for _, f := range st.Findings {
-		sig := fmt.Sprintf("C17:%s:%s:after-crash:%s", f.Kind, fsp.Target, f.Role)
-		rep.Violation(sig, fmt.Sprintf("%s: a process was killed immediately before %s; the same operation run again afterwards (content of %d bytes, no fault, returned %q): %s",
-			fsp.Target, j.inj.Point.What, len(fw.new), res.Err, f.Text),
+		sig := fmt.Sprintf("C17:%s:%s:%s:%s", f.Kind, fsp.Target, phase, f.Role)
+		rep.Violation(sig, fmt.Sprintf("%s: %s; a new process then re-opened the tree and ran the same operation again (content of %d bytes, no fault, returned %q): %s",
+			fsp.Target, before, len(fw.new), res.Err, f.Text),
 			map[string]any{"spec": j.cs.sp, "inject": j.inj, "follow_up_spec": fsp, "finding": f, "state_after_follow_up": st, "op_result": res,
 				"killed_run_trace_tail": traceExcerpt(r.Dir, 40)})
 	}
 	if res.Err != "" {
 		rep.Count("followup_op_failed", 1)
-		rep.Note("%s: the follow-up operation after the kill before %s failed: %s", fsp.label(), j.inj.Point.What, res.Err)
+		rep.Note("%s: the follow-up operation (%s) failed: %s", fsp.label(), before, res.Err)
 		return
 	}
 	rep.Count("followup_state_"+st.Dest, 1)
-	rep.Distinct(fmt.Sprintf("%s|follow|%d", j.cs.sp.sig(), j.inj.Point.Index))
+	rep.Distinct(fmt.Sprintf("%s|follow|%d", j.cs.sp.sig(), pidx))
 }
 
 func traceExcerpt(dir string, n int) []string {
@@ -645,6 +673,9 @@ func (e *engine) judge(j job, sp caseSpec, r *vlib.ChildResult) (fu *followUp) {
 		}
 		cs.judgable = true
 		rep.Distinct(sp.sig() + "|pass1")
+		if len(st.Findings) == 0 && res.Err == "" && !w.expectErr && !w.errOK {
+			fu = &followUp{w: w, st: st} // second phase after a clean end: a new process re-opens and operates on the tree
+		}
 		return
 	}
 
